@@ -496,6 +496,16 @@ func (s *frameSide) violate(key, what string, detail any) {
 	s.resMu.Lock()
 	s.res.violate(key, what, detail)
 	s.resMu.Unlock()
+	// a library call panicked (recovered by frameSafe): the session mutex may still be held and the
+	// rest of the scenario would only hang on it - hand the finding to the parent process at once
+	if out := os.Getenv("FRAME_CHILD_OUT"); out != "" && strings.HasPrefix(key, "session-panic:") {
+		s.resMu.Lock()
+		b, err := json.Marshal(s.res)
+		s.resMu.Unlock()
+		if err == nil && os.WriteFile(out, b, 0o644) == nil {
+			os.Exit(0)
+		}
+	}
 }
 
 // largest payload among the queued and in-flight segments (the core refuses an MTU they cannot honour)
